@@ -236,8 +236,11 @@ def generate(seed: int, config: str, tier: str) -> Dict[str, Any]:
                     script.append(["compile_many", e, qi, di, ci, rng.choice([5, 5, 12, 40])])
                 elif r < 0.4:
                     script.append(["envfind", e, qi, di, ci])
-                elif r < 0.65:
+                elif r < 0.6:
                     script.append(["findall", e, qi, di, ci])
+                elif r < 0.65:
+                    # repeated use of the shared compiled query while the other threads are inside it
+                    script.append(["hot", e, qi, [rng.randrange(len(docs)) for _ in range(rng.randint(1, 3))], ci, rng.choice([3, 3, 10])])
                 elif r < 0.95:
                     script.append(["iterate", e, qi, di, ci, None])
                 else:
